@@ -5,6 +5,8 @@ import (
 	"sort"
 	"strconv"
 	"strings"
+	"sync/atomic"
+	"time"
 
 	"verifharness/hx"
 
@@ -45,7 +47,46 @@ func (p prEvent0) OnTrigger(cb func(int)) func() { return p.e.OnTrigger(func() {
 func (p prEvent0) Trigger(int) bool              { return p.e.Trigger() }
 func (p prEvent0) WasTriggered() bool            { return p.e.WasTriggered() }
 
+// prHangSeen: some promise call of this run did not return.  The first ones wait the full guardWait (a loaded machine
+// must not produce a false alarm); once one is seen the remaining cases only wait briefly, so that a deadlocking
+// implementation is reported as `hang` findings with replays instead of stalling (or killing) the whole harness.
+var prHangSeen atomic.Bool
+
+// call runs one promise call (which runs callbacks) on a goroutine of its own and reports whether it returned.
+func (p *prWorld) call(w *world, what string, f func()) bool {
+	if p.dead {
+		return false
+	}
+	done := make(chan struct{})
+	var pv any
+	go func() {
+		defer close(done)
+		defer func() { pv = recover() }()
+		f()
+	}()
+	wait := guardWait
+	if prHangSeen.Load() {
+		wait = 500 * time.Millisecond
+	}
+	select {
+	case <-done:
+		if pv != nil {
+			panic(pv)
+		}
+
+		return true
+	case <-time.After(wait):
+		prHangSeen.Store(true)
+		p.dead = true
+		w.fail("hang", fmt.Sprintf("%s.%s did not return (a callback that registers another callback from inside its invocation must not deadlock)", p.api(), what),
+			map[string]string{"oracle": "hang", "api": p.api() + "." + what, "mode": "sequential"})
+
+		return false
+	}
+}
+
 type prWorld struct {
+	dead   bool // a call did not return: the event's mutex may be held for ever, the case ends here
 	e      prEvent
 	zero   bool // parameterless event: only `trigger 0` is accepted
 	unsubs []func()
@@ -125,7 +166,11 @@ func (w *world) execPR(f []string, zero bool) string {
 				p.e.OnTrigger(func(b int) { p.log = append(p.log, prCall{c, true, b}) })
 			}
 		}
-		p.unsubs = append(p.unsubs, p.e.OnTrigger(cb))
+		var unsub func()
+		if !p.call(w, "OnTrigger", func() { unsub = p.e.OnTrigger(cb) }) {
+			return "hang"
+		}
+		p.unsubs = append(p.unsubs, unsub)
 
 		return fmt.Sprintf("c%d %s", c, p.takeLog())
 	case f[0] == "unsub" && len(f) == 2:
@@ -134,7 +179,9 @@ func (w *world) execPR(f []string, zero bool) string {
 			return "bad-op"
 		}
 		if c >= 0 && c < len(p.unsubs) {
-			p.unsubs[c]()
+			if !p.call(w, "unsubscribe", p.unsubs[c]) {
+				return "hang"
+			}
 			if !p.triggered {
 				p.removed[c] = true
 			}
@@ -146,7 +193,10 @@ func (w *world) execPR(f []string, zero bool) string {
 		if err != nil || v < 0 || (p.zero && v != 0) {
 			return "bad-op"
 		}
-		first := p.e.Trigger(v)
+		var first bool
+		if !p.call(w, "Trigger", func() { first = p.e.Trigger(v) }) {
+			return "hang"
+		}
 		if first != !p.triggered {
 			w.fail("promise-once", fmt.Sprintf("Trigger returned %v although triggered-before=%v", first, p.triggered),
 				map[string]string{"oracle": "trigger-result", "api": p.api() + ".Trigger", "mode": "sequential"})
@@ -157,7 +207,12 @@ func (w *world) execPR(f []string, zero bool) string {
 
 		return fmt.Sprintf("%v %s", first, p.takeLog())
 	case f[0] == "was" && len(f) == 1:
-		return fmt.Sprintf("%v", p.e.WasTriggered())
+		var was bool
+		if !p.call(w, "WasTriggered", func() { was = p.e.WasTriggered() }) {
+			return "hang"
+		}
+
+		return fmt.Sprintf("%v", was)
 	}
 
 	return "bad-op"
@@ -166,6 +221,9 @@ func (w *world) execPR(f []string, zero bool) string {
 // finishPR evaluates the property on the whole history: every callback that was not unsubscribed before Trigger ran
 // exactly once (with the trigger value), the others never.
 func (p *prWorld) finish(w *world) {
+	if p.dead {
+		return
+	}
 	if !p.triggered {
 		for name, n := range p.total {
 			if n != 0 {
